@@ -84,7 +84,7 @@ func (s *scheduler) switchTo(me, next *goroutine) {
 func (s *scheduler) park(me *goroutine) {
 	<-me.resume
 	if s.killed {
-		panic(abortPath{"halt", "killed"})
+		panic(abortPath{"killed", "killed"})
 	}
 }
 
@@ -167,14 +167,14 @@ func (s *scheduler) deadlock(fr *frame, me *goroutine) {
 	msg := "all goroutines are asleep - deadlock! " + s.describe()
 	s.finished <- pathEnd{fatal: msg, gid: me.id, stack: fr.stack(8)}
 	s.park(me) // will be killed
-	panic(abortPath{"halt", "deadlock"})
+	panic(abortPath{"killed", "deadlock"})
 }
 
 func (fr *frame) fatal(msg string) {
 	s := fr.p.sched
 	s.finished <- pathEnd{fatal: msg, gid: fr.g.id, stack: fr.stack(8)}
 	s.park(fr.g)
-	panic(abortPath{"halt", "fatal"})
+	panic(abortPath{"killed", "fatal"})
 }
 
 // spawn starts a new interpreted goroutine.
@@ -204,7 +204,7 @@ func (s *scheduler) runGoroutine(g *goroutine, body func()) {
 		}
 		switch r := r.(type) {
 		case abortPath:
-			if r.kind == "halt" {
+			if r.kind == "killed" {
 				return
 			}
 			s.finished <- pathEnd{abort: &r, gid: g.id}
